@@ -654,5 +654,104 @@ theorem choice_length : ∀ (ax : List (String × List Json)) (c : List Nat),
     simp only at hd
     simp [choice, List.getElem?_eq_getElem hd, choice_length ax ps h']
 
+/-! ### scalar axes with pairwise different options: different combinations, different queries -/
+
+theorem writes_scalar : ∀ (ch : List (String × Json)), (∀ kv ∈ ch, kv.2.isObject = false) →
+    writes ch = ch
+  | [], _ => rfl
+  | (k, v) :: r, h => by
+    have hv : v.isObject = false := h (k, v) (by simp)
+    have hw : writesOf k v = [(k, v)] := by cases v <;> simp_all [writesOf, Json.isObject]
+    simp [writes, hw, writes_scalar r (fun kv hkv => h kv (by simp [hkv]))]
+
+theorem choice_keys : ∀ (ax : List (String × List Json)) (c : List Nat),
+    inRange (ax.map (·.2.length)) c = true → (choice ax c).map (·.1) = ax.map (·.1)
+  | [], c, _ => by simp [choice]
+  | (a, o) :: ax, c, h => by
+    obtain ⟨d, ps, rfl, hd, h'⟩ := (MultiSet.inRange_cons_iff _ _ c).mp h
+    simp only at hd
+    simp [choice, List.getElem?_eq_getElem hd, choice_keys ax ps h']
+
+theorem choice_inj : ∀ (ax : List (String × List Json)) (c c' : List Nat),
+    (ax.map (·.1)).Nodup → (∀ a ∈ ax, a.2.Nodup) →
+    inRange (ax.map (·.2.length)) c = true → inRange (ax.map (·.2.length)) c' = true →
+    (∀ k v, (k, v) ∈ choice ax c ↔ (k, v) ∈ choice ax c') → c = c'
+  | [], c, c', _, _, h, h', _ => by simp at h h'; simp [h, h']
+  | (a, o) :: ax, c, c', hk, ho, h, h', hm => by
+    obtain ⟨d, ps, rfl, hd, hps⟩ := (MultiSet.inRange_cons_iff _ _ c).mp h
+    obtain ⟨d', ps', rfl, hd', hps'⟩ := (MultiSet.inRange_cons_iff _ _ c').mp h'
+    simp only at hd hd'
+    simp only [List.map_cons, List.nodup_cons] at hk
+    have hc : ∀ (e : Nat) (es : List Nat) (he : e < o.length), choice ((a, o) :: ax) (e :: es)
+        = (a, o[e]) :: choice ax es := by
+      intro e es he; simp [choice, List.getElem?_eq_getElem he]
+    rw [hc d ps hd, hc d' ps' hd'] at hm
+    have hnot : ∀ (es : List Nat) (v : Json), inRange (ax.map (·.2.length)) es = true →
+        (a, v) ∉ choice ax es := by
+      intro es v hes hmem
+      have : a ∈ (choice ax es).map (·.1) := List.mem_map.mpr ⟨(a, v), hmem, rfl⟩
+      rw [choice_keys ax es hes] at this
+      exact hk.1 this
+    have hhead : o[d] = o[d'] := by
+      have := (hm a o[d]).mp (by simp)
+      rcases List.mem_cons.mp this with e | e
+      · exact (Prod.mk.inj e).2
+      · exact absurd e (hnot ps' _ hps')
+    have hdd : d = d' := (List.Nodup.getElem_inj_iff (ho (a, o) (by simp))).mp hhead
+    have htail : ∀ k v, (k, v) ∈ choice ax ps ↔ (k, v) ∈ choice ax ps' := by
+      intro k v
+      constructor
+      · intro hkv
+        rcases List.mem_cons.mp ((hm k v).mp (List.mem_cons_of_mem _ hkv)) with e | e
+        · cases e; exact absurd hkv (hnot ps _ hps)
+        · exact e
+      · intro hkv
+        rcases List.mem_cons.mp ((hm k v).mpr (List.mem_cons_of_mem _ hkv)) with e | e
+        · cases e; exact absurd hkv (hnot ps' _ hps')
+        · exact e
+    rw [hdd, choice_inj ax ps ps' hk.2 (fun a ha => ho a (by simp [ha])) hps hps' htail]
+
+theorem axes_keys_sublist : ∀ (sec : List (String × Json)),
+    ((axes sec).map (·.1)).Sublist (sec.map (·.1))
+  | [] => by simp [axes]
+  | (k, v) :: r => by
+    have ih := axes_keys_sublist r
+    cases v <;> simp [axes, ih, List.Sublist.cons]
+
+/-- with scalar axes, the chosen options can be read back from the generated query -/
+theorem overlay_inj_scalar (initial : List (String × Json)) (ax : List (String × List Json))
+    (hk : (ax.map (·.1)).Nodup) (hs : ∀ a ∈ ax, ∀ v ∈ a.2, v.isObject = false)
+    (ho : ∀ a ∈ ax, a.2.Nodup) (c c' : List Nat)
+    (h : inRange (ax.map (·.2.length)) c = true) (h' : inRange (ax.map (·.2.length)) c' = true)
+    (he : overlay initial (choice ax c) = overlay initial (choice ax c')) : c = c' := by
+  have hsc : ∀ (e : List Nat), ∀ kv ∈ choice ax e, kv.2.isObject = false := by
+    intro e kv hkv
+    obtain ⟨opts, h1, h2⟩ := mem_choice ax e kv.1 kv.2 hkv
+    exact hs _ h1 _ h2
+  have hnd : ∀ (e : List Nat), inRange (ax.map (·.2.length)) e = true →
+      ((choice ax e).reverse.map (·.1)).Nodup := by
+    intro e hr
+    rw [List.map_reverse, List.nodup_reverse, choice_keys ax e hr]; exact hk
+  have key : ∀ (e e' : List Nat), inRange (ax.map (·.2.length)) e = true →
+      inRange (ax.map (·.2.length)) e' = true →
+      overlay initial (choice ax e) = overlay initial (choice ax e') →
+      ∀ k v, (k, v) ∈ choice ax e → (k, v) ∈ choice ax e' := by
+    intro e e' hr hr' heq k v hkv
+    have h1 : lookup (choice ax e).reverse k = some v :=
+      (lookup_eq_some_iff_mem _ (hnd e hr) k v).mpr (List.mem_reverse.mpr hkv)
+    have hkin : k ∈ (choice ax e').reverse.map (·.1) := by
+      rw [List.map_reverse, List.mem_reverse, choice_keys ax e' hr', ← choice_keys ax e hr]
+      exact List.mem_map.mpr ⟨(k, v), hkv, rfl⟩
+    have h2 := congrArg (fun m => lookup m k) heq
+    simp only [lookup_overlay, writes_scalar _ (hsc e), writes_scalar _ (hsc e'), h1] at h2
+    cases hl : lookup (choice ax e').reverse k with
+    | none => exact absurd hkin ((lookup_eq_none_iff _ k).mp hl)
+    | some v' =>
+      rw [hl] at h2
+      simp only [Option.some.injEq] at h2
+      subst h2
+      exact List.mem_reverse.mp ((lookup_eq_some_iff_mem _ (hnd e' hr') k v).mp hl)
+  exact choice_inj ax c c' hk ho h h' (fun k v => ⟨key c c' h h' he k v, key c' c h' h he.symm k v⟩)
+
 end GridSearch
 end Compass
